@@ -25,15 +25,16 @@ Case(run) ==
    leaves |-> IF f.err = "" THEN f.root.leaves ELSE << >>,
    refok |-> RefTree(run.ops).ok]
 Cases == { Case(r) : r \in { x \in Runs(GenLen) : Len(x.ops) >= 1 } }
-\* deep chains: two leaves at depth n, hidden siblings all the way up
-Chain(n) == << [kind |-> "leaf", depth |-> n, id |-> 1], [kind |-> "leaf", depth |-> n, id |-> 2] >>
-            \o [k \in 1..(n - 1) |-> [kind |-> "hidden", depth |-> n - k, id |-> k + 2]]
+\* deep chains: two nodes at depth n (both leaves, or both hidden), siblings all the way up (hidden under leaves, leaves under hidden)
+Chain(n, bk) == << [kind |-> bk, depth |-> n, id |-> 1], [kind |-> bk, depth |-> n, id |-> 2] >>
+                \o [k \in 1..(n - 1) |-> [kind |-> IF bk = "leaf" THEN "hidden" ELSE "leaf", depth |-> n - k, id |-> k + 2]]
 RECURSIVE FoldOps(_, _, _)
 FoldOps(br, os, i) == IF i > Len(os) THEN [err |-> "", branch |-> br, at |-> 0]
                       ELSE LET r == Insert(br, IF os[i].kind = "leaf" THEN LeafNode(os[i].id) ELSE HiddenNode(os[i].id), os[i].depth) IN
                            IF r.err # "" THEN [err |-> r.err, branch |-> br, at |-> i] ELSE FoldOps(r.branch, os, i + 1)
-DeepCases == { LET r == FoldOps(<< >>, Chain(n), 1) IN
-               [n |-> n, err |-> r.err, at |-> r.at, fin |-> IF r.err = "" THEN Finalize(r.branch).err ELSE "n/a"] : n \in {127, 128, 129} }
+DeepCases == { LET r == FoldOps(<< >>, Chain(n, bk), 1) IN
+               [n |-> n, bottom |-> bk, ops |-> Chain(n, bk), err |-> r.err, at |-> r.at, fin |-> IF r.err = "" THEN Finalize(r.branch).err ELSE "n/a"]
+               : n \in {127, 128, 129}, bk \in {"leaf", "hidden"} }
 \* Huffman: weights and the optimal cost sum(w * depth)
 HuffCost(ws) == LET ds == HuffDepths(ws) IN FoldLeft(LAMBDA a, b : WAdd(a, b), W(0), [i \in DOMAIN ws |-> WMul(ws[i], (CHOOSE l \in ds : l[1] = i)[2])])
 HuffCases == { [ws |-> ws, cost |-> HuffCost(ws)] : ws \in UNION { [1..n -> { W(k) : k \in 1..4 }] : n \in 1..5 } \cup UNION { [1..n -> BigWeights] : n \in 1..5 } }
